@@ -9,6 +9,8 @@ import (
 	"fmt"
 	"math/rand/v2"
 	"strings"
+	"sync/atomic"
+	"time"
 
 	"github.com/TheManticoreProject/Manticore/network/smb/smb_v10/spnego"
 	"github.com/TheManticoreProject/Manticore/network/smb/smb_v10/spnego/ntlm"
@@ -1021,8 +1023,13 @@ func anchors() {
 	}
 }
 
+var blobClock atomic.Int64
+
 func main() {
 	r = mon.Start("C08", "exploration")
+	// the clock behind the NTLMv2 client blob advances one second on every reading: a message
+	// built from two readings carries a proof over another blob than the one it sends
+	ntlm.VerifClock = func(time.Time) time.Time { return time.Unix(1700000000+blobClock.Add(1), 0) }
 	r.Rule("NEGOTIATE and AUTHENTICATE messages built for generated domain/workstation/user strings (empty, ASCII, BMP, non-BMP; 0..1000 code points and the 65535-byte descriptor limit), both character sets, challenge flag sets crossing UNICODE/OEM x VERSION x EXTENDED_SESSIONSECURITY x TARGET_INFO, read back by an independent MS-NLMP reader; CHALLENGE messages written by an independent writer (0..10 AV pairs, values 0..300 bytes, either payload order, gaps) parsed by the library; SPNEGO wrap/extract for token lengths 0..300, 65400..65700, 2^k+-1 (k<=20), random <=256 KiB, checked by an independent DER walker; ProcessChallengeToken end to end. State carried between calls: every builder output (NEGOTIATE, AUTHENTICATE, SPNEGO wrappers, context tokens) is held in a ring (64 entries / 4 MiB) beside a private copy and re-compared after each later call and at the end; parsers and wrappers get a private input buffer that must be unchanged after the call and is then overwritten with 0xAA (fixed CHALLENGE fields, extracted SPNEGO tokens, wrapped tokens must not change); one parsed CHALLENGE serves two AUTHENTICATE messages with different credentials (challenge must stay untouched, both verify); one AuthContext processes two different challenges (second output answers the second); 8 goroutines build/extract/authenticate unrelated cases and must get the single-caller results. Non-trivial: a distinct (message kind, charset/flag class, emptiness+length bucket of each name, script) tuple, a distinct (flags, name bucket, pair count, order, gaps) challenge, a distinct (wrapper kind, token length, state, mech) SPNEGO case.")
 	r.Assume(
 		"OEM character set is exercised with 7-bit ASCII only",
